@@ -129,6 +129,10 @@ enum Scn {
     /// `prefix` entries, one scaler block, then zeros up to `2^32 + tail` bytes counted from the
     /// start of the block. The buffer is lazily zero-mapped; only its head is ever touched.
     HugeSlice { prefix: u32, tail: u32 },
+    /// ONE uninterrupted run of 2^30 + `extra` timestamp words (more than 4 GiB of FIFO data without
+    /// a scalers block; about 20 GiB of memory with the entries): thorough tier only, skipped when
+    /// the machine has less than 40 GiB available
+    GiantRun { extra: u32 },
 }
 
 /// Resume protocol of the consumer (as documented in the chronobox module and used by
@@ -203,7 +207,7 @@ impl Check for C07Check {
         Some(4096)
     }
     fn rule(&self) -> String {
-        "stream scenarios: a byte stream from the Chronobox FIFO model (timestamps on channels 0..58 both edges, half-wrap markers, 244-byte scaler blocks whose payload words imitate entries and tags, optional invalid word / partial element / garbage tail, optional 1-2 bit flips anywhere) delivered under a history of cuts: every single cut position, every pair of cuts (streams <= 300 B), one byte at a time, and seeded multi-cut patterns biased to land inside entries, inside the scaler tag, inside the scaler payload and at +-1 byte of element boundaries, including zero-length pieces. The consumer follows the resume protocol around the real chronobox_fifo. Oracles: I1 whole-stream parse == reference word-at-a-time parser (entries with channel/edge/24-bit timestamp bit0 cleared/23-bit counter/top bit; consumed = longest valid prefix; remainder = untouched tail); I2 piecewise == whole (entries, order, final remainder); I3 progress (each call consumes a multiple of 4 bytes, >= 4 per entry). sweep scenarios: single-word classification of 4-byte words against the reference, alone and embedded between valid entries (so that a word wrongly taken as a block header is seen swallowing its successors). Non-trivial = at least one piecewise history with >= 2 pieces or >= 2 words classified; distinct = distinct event-log hashes (stream bytes + cut history + entries).".into()
+        "stream scenarios: a byte stream from the Chronobox FIFO model (timestamps on channels 0..58 both edges, half-wrap markers, 244-byte scaler blocks whose payload words imitate entries and tags, optional invalid word / partial element / garbage tail, optional 1-2 bit flips anywhere) delivered under a history of cuts: every single cut position, every pair of cuts (streams <= 300 B), one byte at a time, and seeded multi-cut patterns biased to land inside entries, inside the scaler tag, inside the scaler payload and at +-1 byte of element boundaries, including zero-length pieces. The consumer follows the resume protocol around the real chronobox_fifo. Oracles: I1 whole-stream parse == reference word-at-a-time parser (entries with channel/edge/24-bit timestamp bit0 cleared/23-bit counter/top bit; consumed = longest valid prefix; remainder = untouched tail); I2 piecewise == whole (entries, order, final remainder); I3 progress (each call consumes a multiple of 4 bytes, >= 4 per entry). sweep scenarios: single-word classification of 4-byte words against the reference, alone and embedded between valid entries (so that a word wrongly taken as a block header is seen swallowing its successors). scale scenarios: uninterrupted runs of 12-20 million entries (beyond 2^24), runs of up to 150 000 consecutive scaler blocks, one slice of more than 4 GiB (lazily zero-mapped behind a short head), and - thorough tier only, skipped when less than 40 GiB of memory are available - ONE run of 2^30 + 5 valid timestamp words (4 GiB of input, about 17 GiB resident): every word consumed, one entry per word. Non-trivial = at least one piecewise history with >= 2 pieces or >= 2 words classified; distinct = distinct event-log hashes (stream bytes + cut history + entries).".into()
     }
     fn assumptions(&self) -> Vec<String> {
         vec![
@@ -244,6 +248,9 @@ impl Check for C07Check {
             // all 2^24 words with top byte 0xFE, in context, 256 slices
             let lo = 0xFE00_0000u64 + (k << 16);
             return serde_json::to_value(Scn::Sweep { lo, hi: lo + (1 << 16), step: 1, context: true }).unwrap();
+        }
+        if tier == Tier::Thorough && index == 2221 {
+            return serde_json::to_value(Scn::GiantRun { extra: 5 }).unwrap();
         }
         if index % 997 == 313 {
             return serde_json::to_value(Scn::HugeSlice { prefix: r.usize(0, 40) as u32, tail: *r.pick(&[0u32, 4, 8, 120, 240, 244, 248, 4096]) }).unwrap();
@@ -511,6 +518,68 @@ fn run_on_caller_stack(scenario: &Value, stats: &mut Stats) -> Outcome {
                                 invariant: "C07.I1-differs-from-reference".into(),
                                 signature: "whole:hugeslice".into(),
                                 detail: format!("slice of {total} bytes: {} entries / {} bytes consumed, reference {} entries / {} bytes", entries.len(), total - rest, want.len(), head.len()),
+                                narrowed: None,
+                            });
+                        }
+                    }
+                }
+                return Outcome { log_hash: log.finish(), nontrivial: true, violations: viol };
+            }
+            Scn::GiantRun { extra } => {
+                let n = (1usize << 30) + extra as usize;
+                log.u64(n as u64);
+                let available_gib = std::fs::read_to_string("/proc/meminfo")
+                    .ok()
+                    .and_then(|t| t.lines().find(|l| l.starts_with("MemAvailable:")).and_then(|l| l.split_whitespace().nth(1).and_then(|v| v.parse::<u64>().ok())))
+                    .map_or(0, |kb| kb >> 20);
+                if available_gib < 40 {
+                    stats.probe("giant_run_skipped_less_than_40GiB_available");
+                    return Outcome { log_hash: log.finish(), nontrivial: false, violations: viol };
+                }
+                let got = simcore::driver::with_address_space(Some(4096), 90 * 1024, || {
+                    let mut buf: Vec<u8> = Vec::new();
+                    if buf.try_reserve_exact(n * 4).is_err() {
+                        return None;
+                    }
+                    // channel i % 59, time 2 * (i mod 2^23): all valid timestamp words
+                    let mut block = Vec::with_capacity(59 * 4 * 1024);
+                    for i in 0..59u32 * 1024 {
+                        block.extend_from_slice(&((((0x80 | (i % 59)) << 24) | ((i * 2) & 0x00FF_FFFE)).to_le_bytes()));
+                    }
+                    while buf.len() + block.len() <= n * 4 {
+                        buf.extend_from_slice(&block);
+                    }
+                    let rest = n * 4 - buf.len();
+                    buf.extend_from_slice(&block[..rest]);
+                    let mut slice: &[u8] = &buf[..];
+                    stats.executions += 1;
+                    let r = catch(|| {
+                        let e = chronobox_fifo(&mut slice);
+                        let first = e.first().map(view);
+                        let last = e.last().map(view);
+                        (e.len(), first, last, slice.len())
+                    });
+                    Some(r)
+                });
+                let Some(got) = got else {
+                    stats.probe("giant_run_not_mappable_here");
+                    return Outcome { log_hash: log.finish(), nontrivial: false, violations: viol };
+                };
+                stats.probe("giant_run_of_more_than_2^30_entries");
+                let word = |i: usize| -> u32 {
+                    let k = (i % (59 * 1024)) as u32;
+                    ((0x80 | (k % 59)) << 24) | ((k * 2) & 0x00FF_FFFE)
+                };
+                let (want_first, _) = reference_parse(&word(0).to_le_bytes());
+                let (want_last, _) = reference_parse(&word(n - 1).to_le_bytes());
+                match got {
+                    Err(p) => viol.push(Violation { invariant: "C07.no-panic".into(), signature: format!("panic:{}:giantrun", panic_site(&p)), detail: p, narrowed: None }),
+                    Ok((len, first, last, rest)) => {
+                        if len != n || rest != 0 || first != want_first.first().cloned() || last != want_last.first().cloned() {
+                            viol.push(Violation {
+                                invariant: "C07.I1-differs-from-reference".into(),
+                                signature: "whole:giantrun".into(),
+                                detail: format!("run of {n} valid timestamp words: {len} entries returned, {rest} bytes left unconsumed (first {first:?}, last {last:?})"),
                                 narrowed: None,
                             });
                         }
